@@ -54,6 +54,7 @@ def mean_edge_length(mesh : Mesh, n : int = None) -> float:
     """
     l = 0
     if n is None: n = len(mesh.edges)
+    n = min(n, len(mesh.edges))
     for k in range(min(n, len(mesh.edges))):
         a,b = (Vec(mesh.vertices[u]) for u in mesh.edges[k])
         l += (b-a).norm()
@@ -78,6 +79,7 @@ def mean_face_area(mesh : SurfaceMesh, n : int = None) -> float:
     else:
         farea = face_area(mesh)
     if n is None: n = len(mesh.faces)
+    n = min(n, len(mesh.faces))
     res = 0
     for k in range(min(n, len(mesh.faces))):
         res += farea[k]
@@ -102,6 +104,7 @@ def mean_cell_volume(mesh : VolumeMesh, n : int = None) -> float:
     else:
         cvol = cell_volume(mesh)
     if n is None: n = len(mesh.cells)
+    n = min(n, len(mesh.cells))
     res = 0
     for k in range(min(n, len(mesh.cells))):
         res += cvol[k]
